@@ -427,6 +427,17 @@ def build(P: Dict[str, Any], *, is_async: bool = False, mc: int = 1, decorate_at
             kw["priority"] = spec.get("prio", 0)
             kw["is_sequential"] = bool(spec.get("seq"))
         f_body: Any = make_body(fn, spec)
+        if spec.get("bound"):
+            # kind of callable: a bound method (of an instance of a class made for this function; two functions that
+            # share their qualified name are the `run` methods of two instances of look-alike classes)
+            def run(self: Any, *a: Any, **k: Any) -> Any:
+                return self._body(*a, **k)
+
+            run.__name__, run.__qualname__, run.__module__ = f_body.__name__, f_body.__qualname__, f_body.__module__
+            run.__annotations__ = {}
+            inst = type("Holder", (), {"run": run})()
+            inst._body = f_body
+            f_body = inst.run
         if spec.get("partial"):
             import functools
 
